@@ -18,7 +18,7 @@ PROPERTY = "C07"
 RULE = (
     "one run = a seeded history mixing everything that creates or rewrites objects (writes of all value kinds, add/delete rows and columns, "
     "add_table incl. x/y, add_sheet, renames, merges, styles incl. background images, border strokes, captions, number/currency/percentage/"
-    "scientific/base/fraction/datetime formats, tickbox/rating/slider/stepper/popup control cells, custom number/text/datetime formats) on new "
+    "scientific/base/fraction/datetime formats, tickbox/rating/slider/stepper/popup control cells, custom number/text/datetime formats, formulas set through cell.formula alone or on control cells) on new "
     "documents (shapes incl. 255/256/257/512 rows and 256/257 columns) and on loaded fixtures, with repeated saves, saves after an injected "
     "failed save (ENOSPC/EIO), save->reopen->save chains, file and package slots. An independent validator (own unzip + IWA codec + generated "
     "schemas; 30-150 ms) runs on EVERY file a save returned normally for: reopens; references of every added or rewritten object (body and "
@@ -26,7 +26,7 @@ RULE = (
     "every added .iwa member has exactly one ComponentInfo naming an object it holds; new external references of the metadata resolve; per "
     "touched table: tiles cover exactly number_of_rows, one row record per row, row indices in range and unique, offsets count = columns, "
     ">= -1, strictly increasing, 4-byte aligned, in bounds, record lengths implied by their own flag words tile the buffer exactly (no overlap, no gap), "
-    "cell_count = present offsets. Every 5th run is a plain re-save of a shipped fixture. distinct = event-log digest; non-trivial = >= 1 package validated after >= 3 object-creating ops, or a fixture re-save"
+    "cell_count = present offsets. Every 5th run is a plain re-save of a shipped fixture; every 5th handles 2-3 documents (each shipped fixture in turn, and new documents, in both orders) in the one process, each getting add_table/add_sheet/caption plus other object-creating edits before its save. distinct = event-log digest; non-trivial = >= 1 package validated after >= 3 object-creating ops, or a fixture re-save"
 )
 ASSUMPTIONS = [
     "'sound' means the invariants the statement lists, not acceptance by Apple Numbers",
@@ -38,6 +38,83 @@ with open(os.path.join(os.path.dirname(os.path.dirname(__file__)), "fixtures.jso
     _SURVEY = json.load(_fh)
 FIX = sorted(k for k, v in _SURVEY.items() if v.get("opens") and not any("unsupported version" in w for w in v.get("warnings", [])))
 FIX_QUICK = [k for k in FIX if (_SURVEY[k].get("cells") or 0) <= 3000]
+
+
+def emit_step(g, kind: str, d: int, fault_arm: bool) -> None:
+    rng = g.rng
+    if not g.ms.docs:
+        g.emit({"op": "new_doc", "rows": 3, "cols": 3})
+    m = g.ms.docs[d % len(g.ms.docs)].model
+    s = rng.randrange(len(m.sheets))
+    t = rng.randrange(len(m.sheets[s].tables))
+    tm = m.sheets[s].tables[t]
+    big = tm.ncells() > 1200
+    if kind == "write":
+        for _ in range(rng.randint(1, 5)):
+            row, col = (g.index(tm.nrows), g.index(tm.ncols)) if rng.random() < 0.8 else (tm.nrows - 1 + rng.randint(0, 2), min(999, tm.ncols - 1 + rng.randint(0, 1)))
+            if max(row + 1, tm.nrows) * max(col + 1, tm.ncols) > 3500:
+                row, col = g.index(tm.nrows), g.index(tm.ncols)
+            g.emit({"op": "write", "d": d, "s": s, "t": t, "r": row, "c": col, "v": V.enc(g.value())})
+    elif kind in ("add_row", "add_col", "del_row", "del_col"):
+        size = tm.nrows if "row" in kind else tm.ncols
+        o = {"op": kind, "d": d, "s": s, "t": t, "n": 1 if big else g.count(260 if kind == "add_row" else 10)}
+        other = tm.ncols if "row" in kind else tm.nrows
+        if kind.startswith("add") and (size + o["n"]) * other > 3500:
+            o["n"] = 1
+        if rng.random() < 0.5:
+            o["at"] = g.index(size)
+        g.emit(o)
+    elif kind == "add_table":
+        rows, cols = pick_shape(rng, rng.choice(["tiny", "small", "default"]))
+        o = {"op": "add_table", "d": d, "s": s, "rows": rows, "cols": cols, "hr": min(rng.choice([0, 1, 2]), rows), "hc": min(rng.choice([0, 1]), cols)}
+        if rng.random() < 0.4:
+            o["x"], o["y"] = float(rng.randint(0, 900)), float(rng.randint(0, 900))
+        g.emit(o)
+    elif kind == "add_sheet":
+        g.emit({"op": "add_sheet", "d": d, "rows": rng.randint(1, 6), "cols": rng.randint(1, 6)})
+    elif kind == "rename":
+        g.emit({"op": "rename_table", "d": d, "s": s, "t": t, "name": g.name()})
+    elif kind == "merge":
+        if not tm.hedge and not tm.vedge:
+            g.emit({"op": "merge", "d": d, "s": s, "t": t, "rects": [gen_rect(g, tm, rng)]})
+    elif kind == "style":
+        g.emit({"op": "add_style", "d": d, "attrs": gen_attrs(rng), "name": None})
+        g.emit({"op": "set_style", "d": d, "s": s, "t": t, "r": g.index(tm.nrows), "c": g.index(tm.ncols), "style": rng.randrange(12), "via": rng.choice(["set", "write"]), "v": V.enc(g.value())})
+    elif kind == "border":
+        if not tm.merges:
+            g.emit(gen_border(g, rng, tm, s=s, t=t))
+    elif kind == "caption":
+        g.emit({"op": "set_caption", "d": d, "s": s, "t": t, "text": rng.choice(["Caption", "c", "Ünï \U0001F600"]), "enabled": rng.random() < 0.7})
+    elif kind == "format":
+        rr, cc = rng.randrange(tm.nrows), rng.randrange(tm.ncols)
+        if rng.random() < 0.7:
+            g.emit({"op": "write", "d": d, "s": s, "t": t, "r": rr, "c": cc, "v": V.enc(V.gen_value(rng, {"i": 3, "f": 3, "b": 1, "s": 1, "dt": 1}, False))})
+        g.emit({"op": "set_format", "d": d, "s": s, "t": t, "r": rr, "c": cc, "k": rng.randrange(1000)})
+    elif kind == "formula":
+        rr, cc = rng.randrange(tm.nrows), rng.randrange(tm.ncols)
+        g.emit({"op": "write", "d": d, "s": s, "t": t, "r": rr, "c": cc, "v": V.enc(V.gen_value(rng, {"i": 3, "f": 3}, False))})
+        g.emit({"op": "set_formula", "d": d, "s": s, "t": t, "r": rr, "c": cc, "k": rng.randrange(1000)})
+        if rng.random() < 0.5:
+            g.emit({"op": "set_format", "d": d, "s": s, "t": t, "r": rr, "c": cc, "k": rng.randrange(1000),
+                    "kind": rng.choice(["slider", "stepper", "popup_num", "currency", "number", "rating"])})
+    elif kind == "custom_format":
+        rr, cc = rng.randrange(tm.nrows), rng.randrange(tm.ncols)
+        if rng.random() < 0.7:
+            g.emit({"op": "write", "d": d, "s": s, "t": t, "r": rr, "c": cc, "v": V.enc(V.gen_value(rng, {"i": 3, "f": 3, "s": 2, "dt": 1}, False))})
+        g.emit({"op": "custom_format", "d": d, "s": s, "t": t, "r": rr, "c": cc, "k": rng.randrange(1000),
+                "name": rng.choice([None, "CF " + str(rng.randrange(5))])})
+    elif kind == "save":
+        o = {"op": "save", "d": d, "slot": rng.choice(ALL_SLOTS)}
+        if fault_arm and rng.random() < 0.35:
+            o["fault"] = gen_fault(rng)
+            o["fault"]["kind"] = "write_error"
+        g.emit(o)
+        if rng.random() < 0.3:
+            g.emit({"op": "save", "d": d, "slot": rng.choice(ALL_SLOTS)})
+    elif kind == "restart":
+        slots = [n for n, sl in g.ms.slots.items() if sl.status == "good"]
+        if slots:
+            g.emit({"op": "restart", "d": d, "slot": rng.choice(slots)})
 
 
 def gen(seed: int, tier: str, idx=None):
@@ -81,6 +158,38 @@ def gen(seed: int, tier: str, idx=None):
             g.emit({"op": "restart", "d": 0, "slot": slot})
             cfg["fixture_controls"] = True
             return cfg, g.ops
+    if idx is not None and idx % 5 == 2:
+        # several documents handled by one process, one after another or side by side: whatever the library remembers
+        # from one document (memoised identifiers, shared lookup lists, id counters) must not reach the package of the next
+        small = [k for k in pool if (_SURVEY[k].get("cells") or 0) <= 1300]
+        ndocs = rng.choice([2, 2, 3])
+        creating = ["add_table", "add_sheet", "caption", "style", "format", "custom_format", "formula", "write", "merge", "border", "add_row"]
+        first_fixture = small[(idx // 5) % len(small)]
+        order = rng.random() < 0.5
+        slots = list(ALL_SLOTS)
+        rng.shuffle(slots)
+        for k in range(ndocs):
+            from_fixture = (k == 0) == order if k < 2 else rng.random() < 0.5
+            if from_fixture:
+                g.emit({"op": "open_fixture", "name": first_fixture if k < 2 else rng.choice(small)})
+            else:
+                rows, cols = pick_shape(rng, rng.choice(["tiny", "small", "default"]))
+                g.emit({"op": "new_doc", "rows": rows, "cols": cols, "hr": min(1, rows), "hc": min(1, cols)})
+            d = len(g.ms.docs) - 1
+            must = rng.choice(["add_table", "add_sheet", "caption"])
+            kinds = [must] + [rng.choice(creating) for _ in range(rng.randint(1, 5))]
+            rng.shuffle(kinds)
+            for kind in kinds:
+                emit_step(g, kind, d, False)
+            g.emit({"op": "save", "d": d, "slot": slots[k]})
+            if rng.random() < 0.4 and len(g.ms.docs) > 1:
+                g.emit({"op": "drop", "d": d})
+        for k in range(ndocs):
+            if rng.random() < 0.5:
+                g.emit({"op": "restart", "d": 0, "slot": slots[k]})
+                g.emit({"op": "save", "d": 0, "slot": slots[k]})
+        cfg["multi_document"] = True
+        return cfg, g.ops
     fault_arm = rng0.random() < 0.3
     if rng0.random() < 0.2:
         g.emit({"op": "open_fixture", "name": rng0.choice([k for k in FIX_QUICK if (_SURVEY[k].get("cells") or 0) <= 400])})
@@ -89,79 +198,13 @@ def gen(seed: int, tier: str, idx=None):
         g.emit({"op": "new_doc", "rows": rows, "cols": cols, "hr": min(rng0.choice([0, 1, 1, 2]), rows), "hc": min(rng0.choice([0, 1, 1]), cols)})
     steps = rng0.randint(6, 34 if tier == "thorough" else 24)
     weights = {"write": 14, "add_row": 3, "add_col": 3, "del_row": 2, "del_col": 2, "add_table": 3, "add_sheet": 1.5, "rename": 1, "merge": 3,
-               "style": 4, "border": 4, "caption": 2, "format": 9, "custom_format": 3, "save": 6, "restart": 3}
+               "style": 4, "border": 4, "caption": 2, "format": 9, "custom_format": 3, "formula": 3, "save": 6, "restart": 3}
     for k in list(weights):
         if k not in ("write", "save") and rng0.random() < 0.3:
             weights[k] = 0
     names, wts = list(weights), list(weights.values())
     for _ in range(steps):
-        kind = rng.choices(names, wts)[0]
-        if not g.ms.docs:
-            g.emit({"op": "new_doc", "rows": 3, "cols": 3})
-        m = g.ms.docs[0].model
-        s = rng.randrange(len(m.sheets))
-        t = rng.randrange(len(m.sheets[s].tables))
-        tm = m.sheets[s].tables[t]
-        big = tm.ncells() > 1200
-        if kind == "write":
-            for _ in range(rng.randint(1, 5)):
-                row, col = (g.index(tm.nrows), g.index(tm.ncols)) if rng.random() < 0.8 else (tm.nrows - 1 + rng.randint(0, 2), min(999, tm.ncols - 1 + rng.randint(0, 1)))
-                if max(row + 1, tm.nrows) * max(col + 1, tm.ncols) > 3500:
-                    row, col = g.index(tm.nrows), g.index(tm.ncols)
-                g.emit({"op": "write", "d": 0, "s": s, "t": t, "r": row, "c": col, "v": V.enc(g.value())})
-        elif kind in ("add_row", "add_col", "del_row", "del_col"):
-            size = tm.nrows if "row" in kind else tm.ncols
-            o = {"op": kind, "d": 0, "s": s, "t": t, "n": 1 if big else g.count(260 if kind == "add_row" else 10)}
-            other = tm.ncols if "row" in kind else tm.nrows
-            if kind.startswith("add") and (size + o["n"]) * other > 3500:
-                o["n"] = 1
-            if rng.random() < 0.5:
-                o["at"] = g.index(size)
-            g.emit(o)
-        elif kind == "add_table":
-            rows, cols = pick_shape(rng, rng.choice(["tiny", "small", "default"]))
-            o = {"op": "add_table", "d": 0, "s": s, "rows": rows, "cols": cols, "hr": min(rng.choice([0, 1, 2]), rows), "hc": min(rng.choice([0, 1]), cols)}
-            if rng.random() < 0.4:
-                o["x"], o["y"] = float(rng.randint(0, 900)), float(rng.randint(0, 900))
-            g.emit(o)
-        elif kind == "add_sheet":
-            g.emit({"op": "add_sheet", "d": 0, "rows": rng.randint(1, 6), "cols": rng.randint(1, 6)})
-        elif kind == "rename":
-            g.emit({"op": "rename_table", "d": 0, "s": s, "t": t, "name": g.name()})
-        elif kind == "merge":
-            if not tm.hedge and not tm.vedge:
-                g.emit({"op": "merge", "d": 0, "s": s, "t": t, "rects": [gen_rect(g, tm, rng)]})
-        elif kind == "style":
-            g.emit({"op": "add_style", "d": 0, "attrs": gen_attrs(rng), "name": None})
-            g.emit({"op": "set_style", "d": 0, "s": s, "t": t, "r": g.index(tm.nrows), "c": g.index(tm.ncols), "style": rng.randrange(12), "via": rng.choice(["set", "write"]), "v": V.enc(g.value())})
-        elif kind == "border":
-            if not tm.merges:
-                g.emit(gen_border(g, rng, tm, s=s, t=t))
-        elif kind == "caption":
-            g.emit({"op": "set_caption", "d": 0, "s": s, "t": t, "text": rng.choice(["Caption", "c", "Ünï \U0001F600"]), "enabled": rng.random() < 0.7})
-        elif kind == "format":
-            rr, cc = rng.randrange(tm.nrows), rng.randrange(tm.ncols)
-            if rng.random() < 0.7:
-                g.emit({"op": "write", "d": 0, "s": s, "t": t, "r": rr, "c": cc, "v": V.enc(V.gen_value(rng, {"i": 3, "f": 3, "b": 1, "s": 1, "dt": 1}, False))})
-            g.emit({"op": "set_format", "d": 0, "s": s, "t": t, "r": rr, "c": cc, "k": rng.randrange(1000)})
-        elif kind == "custom_format":
-            rr, cc = rng.randrange(tm.nrows), rng.randrange(tm.ncols)
-            if rng.random() < 0.7:
-                g.emit({"op": "write", "d": 0, "s": s, "t": t, "r": rr, "c": cc, "v": V.enc(V.gen_value(rng, {"i": 3, "f": 3, "s": 2, "dt": 1}, False))})
-            g.emit({"op": "custom_format", "d": 0, "s": s, "t": t, "r": rr, "c": cc, "k": rng.randrange(1000),
-                    "name": rng.choice([None, "CF " + str(rng.randrange(5))])})
-        elif kind == "save":
-            o = {"op": "save", "d": 0, "slot": rng.choice(ALL_SLOTS)}
-            if fault_arm and rng.random() < 0.35:
-                o["fault"] = gen_fault(rng)
-                o["fault"]["kind"] = "write_error"
-            g.emit(o)
-            if rng.random() < 0.3:
-                g.emit({"op": "save", "d": 0, "slot": rng.choice(ALL_SLOTS)})
-        elif kind == "restart":
-            slots = [n for n, sl in g.ms.slots.items() if sl.status == "good"]
-            if slots:
-                g.emit({"op": "restart", "d": 0, "slot": rng.choice(slots)})
+        emit_step(g, rng.choices(names, wts)[0], 0, fault_arm)
     if g.ms.docs:
         slot = rng.choice(ALL_SLOTS)
         g.emit({"op": "save", "d": 0, "slot": slot})
@@ -179,7 +222,7 @@ def setup(sim: Sim) -> None:
 def nontrivial(result: dict) -> bool:
     st = result["stats"]
     ops = st["ops"]
-    creating = sum(ops.get(k, 0) for k in ("write", "add_table", "add_sheet", "merge", "add_style", "border", "set_caption", "set_format", "custom_format", "add_row", "add_col"))
+    creating = sum(ops.get(k, 0) for k in ("write", "add_table", "add_sheet", "merge", "add_style", "border", "set_caption", "set_format", "custom_format", "set_formula", "add_row", "add_col"))
     return st.get("validator", {}).get("packages", 0) >= 1 and (creating >= 3 or ops.get("open_fixture", 0) >= 1)
 
 
